@@ -93,6 +93,40 @@ def stage_group_queries(ctx, drv, rng, n):
                 ctx.corr_broken.append({"stream": "state_on_node-vs-groupState", "rows": rows, "real": real, "model": outs[idx]})
 
 
+def corpus_transport_force(ctx):
+    """regression corpus (known finding F11): a Transport group, a copy recorded corrupt on a node that is short of space,
+    and a never-verified file at the same path on another node of the group; the forced re-pull goes to the other node"""
+    import world as worldmod
+    with envmod.Env() as e:
+        w = worldmod.World(e)
+        gs, gt = w.group("gs"), w.group("gt", io_class="Transport")
+        src = w.node("src", gs, stype="F")
+        t1 = w.node("t1", gt, stype="T", min_kib=2 ** 40)      # hopelessly below its minimum free space
+        t2 = w.node("t2", gt, stype="T")
+        f = w.file(w.acq("acq"), "f.dat", b"good-bytes")
+        w.copy(f, src, has="Y")
+        w.copy(f, t1, has="X", on_disk=b"corrupt!!!")
+        stray = b"unregistered, never verified"
+        w.put_bytes(t2, f, stray)
+        w.req(f, src, gt)
+        os.environ["PATH"] = os.path.join(wharness.FAKE, "none")
+        try:
+            d = worldmod.Daemon(e, "h1")
+            for _ in range(3):
+                d.iterate()
+                d.drain()
+        finally:
+            os.environ["PATH"] = "/usr/local/bin:/usr/bin:/bin"
+        now = w.file_on(t2, f)
+        c2 = w.db.ArchiveFileCopy.get_or_none(file=f.id, node=t2.id)
+        ctx.case(("corpus", "transport-force"), nontrivial=True)
+        if now != stray:
+            return [f"forced pull into Transport group gt (copy recorded corrupt on t1, which is below its minimum free space) went to node "
+                    f"t2 and overwrote the file already at that path there ({stray!r} -> {now!r}), which no check had verified corrupt "
+                    f"(its copy row before: none; now {c2.has_file if c2 else None})"]
+    return []
+
+
 def run(ctx):
     ok = common.proof_stage(ctx, MODULE)
     drv = common.Driver()
@@ -136,6 +170,8 @@ def run(ctx):
             if cls in ("healthy-touched", "overwrite"):
                 ctx.violation(cls, msg, {"kind": "history", "ops": [l for l in h["lines"] if l.startswith("w.")]})
     stage_group_queries(ctx, drv, rng, 150 if ctx.quick() else 4000)
+    for p in corpus_transport_force(ctx):
+        ctx.violation("transport-force-overwrites-unverified", p, {"kind": "corpus", "name": "transport forced pull"})
     # all-or-nothing under DB faults at every statement of the pull task (shared machinery with C10)
     scen = [("pull", 0, "none", "ok"), ("pull", 1, "rsync-only", "ok"), ("pull", 1, "rsync-only", "partial"), ("search", 0, "none", "ok")]
     with envmod.Env() as e:
